@@ -45,7 +45,7 @@ PROPS = {
     "C08": {
         "level": "exploration",
         "lanes": LANES_HEAVY,
-        "rule": "case = (parent shape up to NxN, window incl. empty ones, receiver {owned, view, view of view, view_mut, nested view_mut, view of view_mut}, iterator {rows, rows_mut}); inside it every call script up to depth 2 over {next, next_back, len, nth(n), nth_back(n)} with n in {0,1,2,rem-1,rem,rem+1,C-1,C,C+1,2C,C*R,usize::MAX,usize::MAX/stride+1,2^63}, depth 3-4 over a reduced alphabet, seeded random scripts of length 4-12, each followed by a terminal {drop,count,last,fold,rfold,collect,rev-collect}; every result compared (items by address and length) with std's vec::IntoIter over the expected rows; yielded &mut rows kept alive, checked disjoint and written through. distinct = (parent, window, receiver, iterator) for which all scripts agreed; iterator states reached are counted separately.",
+        "rule": "case = (parent shape up to NxN, window incl. empty ones, receiver {owned, view, view of view, view_mut, nested view_mut, view of view_mut, TooDeeView::from(view_mut), TooDeeView::new / TooDeeViewMut::new over a slice longer than needed, TooDeeView::from(TooDeeViewMut::new(longer slice))}, iterator {rows, rows_mut}); inside it every call script up to depth 2 over {next, next_back, len, nth(n), nth_back(n)} with n in {0,1,2,rem-1,rem,rem+1,C-1,C,C+1,2C,C*R,usize::MAX,usize::MAX/stride+1,2^63}, depth 3-4 over a reduced alphabet, seeded random scripts of length 4-12, each followed by a terminal {drop,count,last,fold,rfold,collect,rev-collect}; every result compared (items by address and length) with std's vec::IntoIter over the expected rows; yielded &mut rows kept alive, checked disjoint and written through. distinct = (parent, window, receiver, iterator) for which all scripts agreed; iterator states reached are counted separately.",
         "must_observe": ["iter_calls", "iter_states"],
         "text": "Runtime exploration over call sequences: rows()/rows_mut() of every receiver kind are driven by enumerated and random method scripts side by side with std's vec::IntoIter (the ideal double-ended exact-size sequence); results are compared by address, &mut rows are checked pairwise disjoint and written through to the parent.",
         "design_ref": "DESIGN.md 5 (C08-C10)", "technique": "runtime monitoring: differential against an ideal sequence over enumerated call scripts, address-identity oracle, sanitizer lanes",
@@ -160,7 +160,7 @@ PROPS.update({
     "C18": {
         "level": "exploration",
         "lanes": {"quick": L(dbg=4, rel=4, asan=2, miri=4), "thorough": L(dbg=8, rel=8, asan=4, miri=8)},
-        "rule": "every shape up to NxN (incl. (0,0), 1xN, Nx1) plus seeded random shapes up to 12x12 x element types {u32, i64, String with quotes/backslashes/control characters/non-BMP/field-name look-alikes, Option<u32>, Vec<i32>, (u8,String)} x encoder {to_string, to_vec, to_writer, to_value} x decoder {from_str, from_slice, from_reader, from_value}: decode(encode(a)) must equal a by ==, size() and data(); every window of every parent up to MxM serialised as TooDeeView<u32> and TooDeeViewMut<u32> must decode to TooDee::from(view). distinct = (element type, shape, encoder, decoder) / (view kind, parent, window, encoder, decoder) that round-tripped.",
+        "rule": "every shape up to NxN (incl. (0,0), 1xN, Nx1) plus seeded random shapes up to 12x12 x element types {u32, i64, String with quotes/backslashes/control characters/non-BMP/field-name look-alikes, Option<u32>, Vec<i32>, (u8,String)} x encoder {to_string, to_vec, to_writer, to_value} x decoder {from_str, from_slice, from_reader, from_value}: decode(encode(a)) must equal a by ==, size() and data(); every window of every parent up to MxM (and selected windows of 70x62 and 300x230 parents) serialised as TooDeeView<u32> and TooDeeViewMut<u32> must decode to TooDee::from(view); arrays reached through histories of operations (emptied row by row / column by column, popped, cleared and regrown, swap_dimensions, random valid steps) are round-tripped after every step. distinct = (element type, shape, encoder, decoder) / (view kind, parent, window, encoder, decoder) that round-tripped.",
         "must_observe": ["roundtrips_ok"],
         "text": "Runtime exploration: the full 4x4 encoder/decoder matrix of serde_json transports is run over all small shapes, six element types and every view window, and the decoded array is compared with the original.",
         "design_ref": "DESIGN.md 5 (C18)", "technique": "runtime monitoring: round-trip oracle over the transport matrix",
